@@ -191,6 +191,12 @@ def plan(tier, rng, sl, nslices, stats):
             a, b = sink_pair(rng)
             yield {"pair": [a, b]}
             continue
+        if i % 40 == 11:
+            a = gfa.large_case(rng)
+            b = gfa.derive_equal(rng, a) if rng.random() < 0.5 else gfa.derive_near(rng, a)
+            b.pop("long_words", None)
+            yield {"pair": [a, b]}
+            continue
         if r < 0.12:
             vc = rng.choice(["tuple", "inject"])
             a = gfa.random_case(rng, max_states=4, max_syms=2, vcs=[vc])
